@@ -123,6 +123,10 @@ std::string Strip(const std::string &orig_str)
 
 std::string StripQuot(const std::string &orig_str)
 {
+    //! front()/back() of an empty string are undefined; a pair of quotes needs two characters
+    if (orig_str.length() < 2)
+        return orig_str;
+
     auto first_char = orig_str.front();
     auto last_char = orig_str.back();
 
